@@ -88,6 +88,21 @@ CLAIMS = {
             "dereferenced, the successor is stored into a new node before every linking CAS (on each retry, same observed value), "
             "raw derefs only in node_ptr::deref, frees only in the last owner's Drop.  Does not decide lost inserts or ordered "
             "iteration under every interleaving.", "§4 C17"),
+    "C14": ("constructor-discipline ORIGIN (with &mut-fill detection), operator table ORDER/MUSTPASS, const evaluation of SETSUM_PRIMES (primality), framing constants read from MIR",
+            "Decides the representation-invariant discipline the algebra needs: every Setsum state comes from zero, add_state or "
+            "the reducing conversion; inverted states only feed add_state; each operator reaches the right primitives with the "
+            "right operands; the moduli are 8 distinct primes in (2^31, 2^32); puts and tombstones are framed with distinct tags "
+            "plus key and timestamp.  Does not decide the algebraic laws over values or agreement with the published definition.", "§4 C14"),
+    "C15": ("field tables read from the macro-expanded MIR of every derived message (pack/pack_sz/stream/unpack agreement, WIRE_TYPE consts), TABLE reading of WireType tables, explicit-panic audit + R-ERR over REACH(decoders)",
+            "Decides table agreement and panic-freedom of explicit constructs: the derived encoders and decoder of each message "
+            "mention the same (number, type, field) set with the type's wire type, numbers are unique, unknown fields are skipped; "
+            "the wire-type tables are inverse; tags pack/unpack with << 3 | and >> 3 & 7 through validating constructors; no "
+            "explicit panic or dropped error is reachable from a decoder.  Does not decide round-trip equality or implicit "
+            "bounds/overflow panics.", "§4 C15"),
+    "C16": ("TABLE reading of to/from_discriminant (inverse bijection < 16), const evaluation of tuple_key2 tag ranges, explicit-panic audit over REACH(decoders)",
+            "Claims only: the decoders of both formats reach no explicit panic construct; the type/direction code tables are "
+            "inverse, four-bit and total; the compact format's tag ranges are ordered, 9 wide, disjoint and contiguous.  Order "
+            "preservation, prefix contiguity and value round-trip are NOT decided.", "§4 C16"),
 }
 
 NA_DEFAULT = "check not built yet (DESIGN.md §8 build order); will be claimed once its rule set is armed"
